@@ -54,6 +54,13 @@ class C08(Prop):
                 cut = rng.choice([5, 6, 7])
             lines.append("lk8 %s %s %s %s" % (rng.choice(["never", "strip", "ansi", "always"]), rng.choice(["out", "err"]), gen.hexs(data[:cut]), gen.hexs(data[cut:])))
         yield "locked-std-streams", lines
+        # to_adapted_string (what print!/println! use under test): strips or forwards per the decided choice
+        from .c06 import frag_split
+        lines = []
+        for _ in range(n // 4):
+            data = gen.grammar_stream(rng, pieces=rng.choice([1, 2, 4]), valid_utf8=True)
+            lines.append("tas %s %s" % (rng.choice(["never", "ansi"]), "/".join(gen.hexs(fr) for fr in frag_split(rng, data))))
+        yield "to-adapted-string", lines
 
     def observe(self, ctx, name, lines, results):
         if name == "never-protocol":
